@@ -1,5 +1,1114 @@
-//! further properties (filled in progressively)
+//! C03 C08 C09 C12 C13 C14 C15
+use crate::core::*;
+use crate::dom::*;
+use crate::gen::*;
+use crate::pool::*;
 use crate::props::*;
-pub fn prop_def3(_id: &str) -> Option<PropDef> {
-    None
+use crate::props2::*;
+use std::collections::{HashMap, HashSet};
+
+fn dom_of(r: &RunResult) -> Vec<DNode> {
+    decode_dom(&r.dom_wire).unwrap_or_default()
+}
+fn groups(cases: &[Case]) -> Vec<Vec<usize>> {
+    let mut m: HashMap<usize, Vec<usize>> = HashMap::new();
+    let mut order = Vec::new();
+    for (i, c) in cases.iter().enumerate() {
+        let e = m.entry(c.group).or_default();
+        if e.is_empty() {
+            order.push(c.group);
+        }
+        e.push(i);
+    }
+    order.into_iter().map(|g| m.remove(&g).unwrap()).collect()
+}
+
+// ======================================================================
+// C13 independence from source whitespace layout
+// ======================================================================
+const BLOCKS: [&str; 16] = ["p", "div", "ul", "ol", "li", "blockquote", "h1", "h2", "h3", "h4", "h5", "h6", "dl", "dt", "dd", "table"];
+
+fn is_block(h: &H) -> bool {
+    matches!(h, H::El(n, _, _) if BLOCKS.contains(&n.as_str()))
+}
+
+fn rand_ws(rng: &mut Rng) -> String {
+    let n = rng.range(1, 4);
+    (0..n).map(|_| *rng.pick(&[' ', '\n', '\t', ' ', '\n'])).collect()
+}
+
+/// whitespace-run substitution inside text nodes
+fn rw_ws_subst(rng: &mut Rng, v: &[H]) -> Vec<H> {
+    v.iter()
+        .map(|h| match h {
+            H::Text(t) => {
+                let mut o = String::new();
+                let mut in_ws = false;
+                for c in t.chars() {
+                    if c == ' ' || c == '\n' || c == '\t' {
+                        if !in_ws {
+                            o.push_str(&rand_ws(rng));
+                        }
+                        in_ws = true;
+                    } else {
+                        o.push(c);
+                        in_ws = false;
+                    }
+                }
+                H::Text(o)
+            }
+            H::El(n, a, k) => H::El(n.clone(), a.clone(), rw_ws_subst(rng, k)),
+            other => other.clone(),
+        })
+        .collect()
+}
+/// comments inserted next to whitespace inside text nodes
+fn rw_comment(rng: &mut Rng, v: &[H]) -> Vec<H> {
+    let mut out = Vec::new();
+    for h in v {
+        match h {
+            H::Text(t) => {
+                let cs: Vec<char> = t.chars().collect();
+                let pos: Vec<usize> = (1..cs.len()).filter(|&i| cs[i - 1].is_whitespace() || cs[i].is_whitespace()).collect();
+                if !pos.is_empty() && rng.chance(1, 2) {
+                    let p = *rng.pick(&pos);
+                    out.push(H::Text(cs[..p].iter().collect()));
+                    out.push(H::Comment(" c ".into()));
+                    out.push(H::Text(cs[p..].iter().collect()));
+                } else {
+                    out.push(h.clone());
+                }
+            }
+            H::El(n, a, k) => out.push(H::El(n.clone(), a.clone(), rw_comment(rng, k))),
+            other => out.push(other.clone()),
+        }
+    }
+    out
+}
+/// wrap runs of inline siblings in <span>
+fn rw_span(rng: &mut Rng, v: &[H]) -> Vec<H> {
+    let mut out: Vec<H> = Vec::new();
+    let mut i = 0;
+    while i < v.len() {
+        if !is_block(&v[i]) && rng.chance(1, 3) {
+            let mut j = i;
+            let len = rng.range(1, 3);
+            while j < v.len() && j < i + len && !is_block(&v[j]) {
+                j += 1;
+            }
+            let run: Vec<H> = v[i..j].iter().map(|h| rw_span_one(rng, h)).collect();
+            out.push(H::El("span".into(), vec![], run));
+            i = j;
+        } else {
+            out.push(rw_span_one(rng, &v[i]));
+            i += 1;
+        }
+    }
+    out
+}
+fn rw_span_one(rng: &mut Rng, h: &H) -> H {
+    match h {
+        H::El(n, a, k) => H::El(n.clone(), a.clone(), rw_span(rng, k)),
+        other => other.clone(),
+    }
+}
+/// indentation / newlines between block tags
+fn rw_indent(rng: &mut Rng, v: &[H]) -> Vec<H> {
+    let mut out = Vec::new();
+    let has_block = v.iter().any(is_block);
+    let all_block_or_ws = v.iter().all(|h| is_block(h) || matches!(h, H::Text(t) if t.trim().is_empty()) || matches!(h, H::Comment(_)));
+    for h in v.iter() {
+        if has_block && all_block_or_ws && is_block(h) && rng.chance(1, 2) {
+            out.push(H::Text(rand_ws(rng)));
+        }
+        match h {
+            H::El(n, a, k) => out.push(H::El(n.clone(), a.clone(), rw_indent(rng, k))),
+            other => out.push(other.clone()),
+        }
+    }
+    if has_block && all_block_or_ws && rng.chance(1, 2) {
+        out.push(H::Text(rand_ws(rng)));
+    }
+    out
+}
+
+fn gen_c13(tier: &str, rng: &mut Rng) -> Vec<Case> {
+    let n = if tier == "thorough" { 80000 } else { 3000 };
+    let mut cases = Vec::new();
+    for gi in 0..n {
+        let o = GenOpts { tables: 0, pre: false, links: true, ids: false, imgs: true, sup: true, strike: true, br: true, dl: true, ws_noise: true, ..Default::default() };
+        let (html, ast) = gen_doc(rng, o);
+        let kind = rng.below(4);
+        let ast2 = match kind {
+            0 => rw_ws_subst(rng, &ast),
+            1 => rw_comment(rng, &ast),
+            2 => rw_span(rng, &ast),
+            _ => rw_indent(rng, &ast),
+        };
+        let slice = ["ws_subst", "comment", "span_wrap", "indent"][kind];
+        let html2 = to_html(&ast2);
+        let cfg = rand_cfg(rng, &[0, 2], false, true);
+        let w = if rng.chance(1, 3) { rng.range(1, 12) } else { rng.range(1, 100) };
+        let route = if cfg.deco == 2 { 1 } else { 0 };
+        for (role, h) in [("base", html), ("variant", html2)] {
+            let id = cases.len();
+            let mut c = mk_case(id, route, cfg.clone(), w, h.into_bytes(), Some(route as u64), g(role), slice);
+            c.group = gi;
+            cases.push(c);
+        }
+    }
+    cases
+}
+fn check_c13(cases: &[Case], results: &[Option<RunResult>]) -> Vec<Violation> {
+    let mut v = Vec::new();
+    for grp in groups(cases) {
+        if grp.len() != 2 {
+            continue;
+        }
+        let (a, b) = (grp[0], grp[1]);
+        if let (Some(ra), Some(rb)) = (&results[a], &results[b]) {
+            if ra.outcome != rb.outcome {
+                let kinds_differ = ra.outcome.is_ok() != rb.outcome.is_ok();
+                let doma = dom_of(ra);
+                let struck = cases[b].spec.cfg.strike != 2 && has_element(&doma, &["s", "del"]);
+                let known = if kinds_differ && (cases[b].slice == "comment" || cases[b].slice == "span_wrap") {
+                    Some("short_split_min_width")
+                } else if struck && cases[b].slice == "ws_subst" {
+                    Some("strikeout_marks_whitespace")
+                } else if cases[b].slice == "span_wrap" && has_element(&doma, &["sup"]) {
+                    Some("sup_digits_wrapped")
+                } else {
+                    None
+                };
+                v.push(viol(b, "output depends on source whitespace layout", format!("{} rewrite; base {} variant {}", cases[b].slice, ra.outcome.kind(), rb.outcome.kind()), known));
+            }
+        }
+    }
+    v
+}
+fn nontrivial_c13(c: &Case, r: &RunResult) -> bool {
+    c.meta.role() == "variant" && r.outcome.is_ok()
+}
+
+// ======================================================================
+// C15 options orthogonal
+// ======================================================================
+fn gen_c15(tier: &str, rng: &mut Rng) -> Vec<Case> {
+    let n = if tier == "thorough" { 60000 } else { 3000 };
+    let mut cases = Vec::new();
+    for gi in 0..n {
+        let (html, _) = gen_doc(rng, GenOpts::all());
+        let bytes = html.into_bytes();
+        let mut base = Cfg { deco: *rng.pick(&[0u8, 1, 2, 3]), ..Default::default() };
+        if rng.chance(1, 4) {
+            base.footnotes = 1;
+        }
+        let w = if rng.chance(1, 4) { rng.range(1, 12) } else { rng.range(1, 100) };
+        let opt = rng.below(9);
+        let mut var = base.clone();
+        let slice: &'static str = match opt {
+            0 => {
+                var.max_wrap = Some(w + rng.below(30));
+                "max_wrap_ge_width"
+            }
+            1 => {
+                var.max_wrap = Some(rng.range(1, w));
+                "max_wrap_lt_width"
+            }
+            2 => {
+                var.pad = true;
+                "pad"
+            }
+            3 => {
+                var.strike = 2;
+                "strike_off"
+            }
+            4 => {
+                var.no_borders = true;
+                "no_borders"
+            }
+            5 => {
+                var.raw = 1;
+                "raw"
+            }
+            6 => {
+                base.footnotes = 1;
+                var.footnotes = 2;
+                "footnotes_off"
+            }
+            7 => {
+                var.no_link_wrap = true;
+                "no_link_wrap"
+            }
+            _ => {
+                var.min_wrap = Some(rng.range(1, 8));
+                "min_wrap"
+            }
+        };
+        for (role, cfg) in [("base", base), ("variant", var)] {
+            let id = cases.len();
+            let mut c = mk_case(id, 0, cfg, w, bytes.clone(), Some(0), g(role), slice);
+            c.group = gi;
+            cases.push(c);
+        }
+    }
+    cases
+}
+fn is_box_char(c: char) -> bool {
+    matches!(c, '─' | '│' | '┬' | '┴' | '┼')
+}
+fn nonspace(s: &str) -> String {
+    s.chars().filter(|c| !c.is_whitespace()).collect()
+}
+/// delete the trailing footnote list and the "[k]" references (on the non-space stream,
+/// strike marks ignored); None if the expected list is not the suffix of the output
+fn strip_footnotes(text: &str, links: &[String]) -> Option<String> {
+    let mut t: String = nonspace(text).chars().filter(|c| *c != '\u{336}').collect();
+    let mut suffix = String::new();
+    for (k, h) in links.iter().enumerate() {
+        suffix.push_str(&format!("[{}]:{}", k + 1, nonspace(h)));
+    }
+    if !t.ends_with(&suffix) {
+        return None;
+    }
+    let keep = t.len() - suffix.len();
+    t.truncate(keep);
+    let mut from = 0usize;
+    for k in 1..=links.len() {
+        let m = format!("[{}]", k);
+        if let Some(p) = t[from..].find(&m) {
+            t.replace_range(from + p..from + p + m.len(), "");
+            from += p;
+        } else {
+            return None;
+        }
+    }
+    Some(t)
+}
+fn count_links(dom: &[DNode]) -> usize {
+    let mut n = 0;
+    walk(dom, &mut |x, _| {
+        if x.is("a") && x.attr("href").is_some() {
+            n += 1;
+        }
+    });
+    n
+}
+fn check_c15(cases: &[Case], results: &[Option<RunResult>]) -> Vec<Violation> {
+    let mut v = Vec::new();
+    for grp in groups(cases) {
+        if grp.len() != 2 {
+            continue;
+        }
+        let (a, b) = (grp[0], grp[1]);
+        let (ra, rb) = match (&results[a], &results[b]) {
+            (Some(x), Some(y)) => (x, y),
+            _ => continue,
+        };
+        if !ra.regular {
+            continue;
+        }
+        let slice = cases[b].slice;
+        let dom = dom_of(ra);
+        let (ta, tb) = (ra.outcome.text(), rb.outcome.text());
+        let same = ra.outcome == rb.outcome;
+        match slice {
+            "max_wrap_ge_width" => {
+                if !same {
+                    v.push(viol(b, "max_wrap_width >= width changed the output", String::new(), None));
+                }
+            }
+            "max_wrap_lt_width" => {
+                // without tables or prefixed blocks every line obeys m
+                if let (Some(tb), Some(m)) = (&tb, cases[b].spec.cfg.max_wrap) {
+                    if !has_element(&dom, &["table", "ul", "ol", "blockquote", "dd", "h1", "h2", "h3", "h4", "h5", "h6", "a", "pre"]) {
+                        for l in tb.split('\n') {
+                            if str_width(l) > m {
+                                v.push(viol(b, "line exceeds max_wrap_width in a prefix-free document", format!("m {} line {:?}", m, l), None));
+                                break;
+                            }
+                        }
+                    }
+                }
+            }
+            "pad" => match (&ta, &tb) {
+                (Some(x), Some(y)) => {
+                    let rs = |s: &str| s.split('\n').map(|l| l.trim_end_matches(' ').to_string()).collect::<Vec<_>>();
+                    if rs(x) != rs(y) {
+                        let known = if has_element(&dom, &["pre"]) { Some("pad_blank_pre_line") } else { None };
+                        v.push(viol(b, "pad_block_width changed more than trailing spaces", String::new(), known));
+                    }
+                }
+                _ => {
+                    if ra.outcome.kind() != rb.outcome.kind() {
+                        v.push(viol(b, "pad_block_width changed the outcome", String::new(), None));
+                    }
+                }
+            },
+            "strike_off" => match (&ta, &tb) {
+                (Some(x), Some(y)) => {
+                    let del: String = x.chars().filter(|c| *c != '\u{336}').collect();
+                    if &del != y {
+                        v.push(viol(b, "unicode_strikeout(false) is not the output with U+0336 deleted", String::new(), Some("strikeout_marks_whitespace")));
+                    }
+                }
+                _ => {
+                    if ra.outcome.kind() != rb.outcome.kind() {
+                        v.push(viol(b, "unicode_strikeout changed the outcome", String::new(), None));
+                    }
+                }
+            },
+            "no_borders" | "raw" => {
+                if let Some(y) = &tb {
+                    let vis: HashSet<char> = visible_chars(&dom).into_iter().collect();
+                    if y.chars().any(|c| is_box_char(c) && !vis.contains(&c)) {
+                        v.push(viol(b, "box-drawing character with borders disabled", String::new(), None));
+                    }
+                }
+                if !has_element(&dom, &["table"]) && !same {
+                    v.push(viol(b, "table option changed a table-free document", String::new(), None));
+                }
+            }
+            "footnotes_off" => {
+                if let (Some(x), Some(y)) = (&ta, &tb) {
+                    let (links, nested) = rendered_links(&dom);
+                    if count_links(&dom) == 0 {
+                        if !same {
+                            v.push(viol(b, "link_footnotes changed a link-free document", String::new(), None));
+                        }
+                    } else if !nested && !has_element(&dom, &["table", "ul", "ol", "blockquote", "dd", "dl", "h1", "h2", "h3", "h4", "h5", "h6", "pre"]) {
+                        let ny: String = nonspace(y).chars().filter(|c| *c != '\u{336}').collect();
+                        match strip_footnotes(x, &links) {
+                            Some(sx) if sx == ny => {}
+                            other => {
+                                v.push(viol(b, "link_footnotes(false) removed or kept more than references and the list", format!("{:?} vs {:?}", other.map(|s| s.chars().take(80).collect::<String>()), ny.chars().take(80).collect::<String>()), None));
+                            }
+                        }
+                    }
+                }
+            }
+            "no_link_wrap" => {
+                if count_links(&dom) == 0 && !same {
+                    v.push(viol(b, "no_link_wrapping changed a link-free document", String::new(), None));
+                }
+            }
+            _ => {}
+        }
+    }
+    v
+}
+fn nontrivial_c15(c: &Case, r: &RunResult) -> bool {
+    c.meta.role() == "variant" && r.outcome.is_ok()
+}
+
+// ======================================================================
+// C08 link footnotes
+// ======================================================================
+fn gen_c08(tier: &str, rng: &mut Rng) -> Vec<Case> {
+    let n = if tier == "thorough" { 80000 } else { 4000 };
+    let mut cases = Vec::new();
+    for _ in 0..n {
+        let tables = rng.chance(1, 3);
+        let o = GenOpts { tables: if tables { 1 } else { 0 }, nested_tables: tables, links: true, ids: false, imgs: false, sup: false, strike: true, br: true, dl: true, pre: false, max_blocks: 6, ..Default::default() };
+        let (html, _) = gen_doc(rng, o);
+        let mut cfg = Cfg { deco: *rng.pick(&[0u8, 1, 2, 3]), ..Default::default() };
+        cfg.footnotes = *rng.pick(&[1u8, 1, 2, 0]);
+        if rng.chance(1, 8) {
+            cfg.raw = 1;
+        }
+        let w = rng.range(10, 120);
+        let id = cases.len();
+        cases.push(mk_case(id, 0, cfg, w, html.into_bytes(), Some(0), g(""), if tables { "tables" } else { "flow" }));
+    }
+    cases
+}
+/// links in document order that are rendered: <a href> with content that is not shallow-empty
+fn rendered_links(dom: &[DNode]) -> (Vec<String>, bool) {
+    fn has_text(n: &DNode) -> bool {
+        match n {
+            DNode::Text(t) => !t.trim().is_empty(),
+            DNode::El { html: true, name, .. } if name == "img" => n.attr("alt").map(|a| !a.is_empty()).unwrap_or(false) && n.attr("src").map(|a| !a.is_empty()).unwrap_or(false),
+            DNode::El { html: true, name, .. } if ["script", "style", "head"].contains(&name.as_str()) => false,
+            DNode::El { kids, .. } => kids.iter().any(has_text),
+            _ => false,
+        }
+    }
+    let mut out = Vec::new();
+    let mut nested = false;
+    walk(dom, &mut |n, anc| {
+        if n.is("a") {
+            if let Some(h) = n.attr("href") {
+                if has_text(n) {
+                    out.push(h.to_string());
+                    if anc.iter().any(|a| a.is("a") && a.attr("href").is_some()) {
+                        nested = true;
+                    }
+                }
+            }
+        }
+    });
+    (out, nested)
+}
+fn check_c08(cases: &[Case], results: &[Option<RunResult>]) -> Vec<Violation> {
+    let mut v = Vec::new();
+    for (i, c) in cases.iter().enumerate() {
+        let r = match &results[i] {
+            Some(r) => r,
+            None => continue,
+        };
+        let text = match r.outcome.text() {
+            Some(t) => t,
+            None => continue,
+        };
+        if !r.regular {
+            continue;
+        }
+        let dom = dom_of(r);
+        let (links, nested) = rendered_links(&dom);
+        let on = match c.spec.cfg.footnotes {
+            1 => true,
+            2 => false,
+            _ => c.spec.cfg.deco == 0,
+        };
+        let text: String = text.chars().filter(|ch| *ch != '\u{336}').collect();
+        let lines: Vec<&str> = text.split('\n').collect();
+        let fstart = lines.iter().position(|l| l.starts_with("[1]: "));
+        if !on {
+            if fstart.is_some() && !links.is_empty() {
+                v.push(viol(i, "footnote list although link footnotes are disabled", String::new(), None));
+            }
+            continue;
+        }
+        let known = if nested { Some("nested_link_numbering") } else { None };
+        if links.is_empty() {
+            if fstart.is_some() {
+                v.push(viol(i, "footnote list without links", String::new(), known));
+            }
+            continue;
+        }
+        let p = match fstart {
+            Some(p) => p,
+            None => {
+                v.push(viol(i, "missing footnote list", String::new(), known));
+                continue;
+            }
+        };
+        // body references, in order
+        // a reference can be hard-wrapped inside a prefixed block: drop the prefix columns
+        let has_table = has_element(&dom, &["table"]) && c.spec.cfg.raw == 0;
+        let body_lines: Vec<String> = lines[..p]
+            .iter()
+            .map(|l| l.trim_start_matches(|ch: char| ch == ' ' || ch == '>' || ch == '#' || ch == '*').to_string())
+            .collect();
+        let body = nonspace(&body_lines.join("\n"));
+        let mut refs = Vec::new();
+        let bs: Vec<char> = body.chars().collect();
+        let mut k = 0;
+        while k < bs.len() {
+            if bs[k] == '[' {
+                let mut j = k + 1;
+                let mut num = String::new();
+                while j < bs.len() && bs[j].is_ascii_digit() {
+                    num.push(bs[j]);
+                    j += 1;
+                }
+                if !num.is_empty() && j < bs.len() && bs[j] == ']' {
+                    refs.push(num.parse::<usize>().unwrap_or(0));
+                    k = j;
+                }
+            }
+            k += 1;
+        }
+        let expect: Vec<usize> = (1..=links.len()).collect();
+        let bad = if has_table {
+            // side-by-side cells interleave (and may split) their lines: the references
+            // found must be distinct members of 1..n
+            let mut r2 = refs.clone();
+            r2.sort();
+            r2.dedup();
+            r2.len() != refs.len() || refs.iter().any(|k| *k < 1 || *k > links.len())
+        } else {
+            refs != expect
+        };
+        if bad {
+            v.push(viol(i, "references are not 1..n in document order", format!("refs {:?} for {} links", refs, links.len()), known));
+            continue;
+        }
+        // the list: unwrap hard-wrapped lines
+        let list: String = lines[p..].concat();
+        let mut exp = String::new();
+        for (k, h) in links.iter().enumerate() {
+            exp.push_str(&format!("[{}]: {}", k + 1, h));
+        }
+        if list != exp {
+            v.push(viol(i, "footnote list does not match the link targets", format!("{:?} vs {:?}", list.chars().take(120).collect::<String>(), exp.chars().take(120).collect::<String>()), known));
+        }
+    }
+    v
+}
+fn nontrivial_c08(_c: &Case, r: &RunResult) -> bool {
+    r.outcome.text().map(|t| t.contains("[2]: ")).unwrap_or(false)
+}
+
+// ======================================================================
+// C14 fragment markers
+// ======================================================================
+fn gen_c14(tier: &str, rng: &mut Rng) -> Vec<Case> {
+    let n = if tier == "thorough" { 80000 } else { 4000 };
+    let mut cases = Vec::new();
+    for _ in 0..n {
+        let tables = rng.chance(1, 4);
+        let o = GenOpts { tables: if tables { 1 } else { 0 }, nested_tables: false, links: true, ids: true, pre: true, dl: true, br: false, imgs: false, sup: false, ..Default::default() };
+        let (html, _) = gen_doc(rng, o);
+        let cfg = Cfg { deco: *rng.pick(&[3u8, 3, 2, 1]), ..Default::default() };
+        let w = if rng.chance(1, 3) { rng.range(1, 10) } else { rng.range(1, 100) };
+        let id = cases.len();
+        cases.push(mk_case(id, 1, cfg, w, html.into_bytes(), Some(1), g(""), if tables { "tables" } else { "flow" }));
+    }
+    cases
+}
+fn vis_count(n: &DNode) -> usize {
+    visible_chars(std::slice::from_ref(n)).len()
+}
+fn check_c14(cases: &[Case], results: &[Option<RunResult>]) -> Vec<Violation> {
+    let mut v = Vec::new();
+    for (i, c) in cases.iter().enumerate() {
+        let r = match &results[i] {
+            Some(r) => r,
+            None => continue,
+        };
+        let lines = match &r.outcome {
+            Outcome::Lines(l) => l,
+            _ => continue,
+        };
+        if !r.regular {
+            continue;
+        }
+        let dom = dom_of(r);
+        // expected: ids on elements with visible content; position = number of visible chars before
+        let mut expect: Vec<(String, usize)> = Vec::new();
+        let mut before = 0usize;
+        fn go(n: &DNode, before: &mut usize, expect: &mut Vec<(String, usize)>) {
+            match n {
+                DNode::Text(_) => *before += vis_count(n),
+                DNode::El { html, name, kids, .. } => {
+                    if *html && ["head", "script", "style", "link", "meta", "hr", "template"].contains(&name.as_str()) {
+                        return;
+                    }
+                    let frag = n.attr("id").or_else(|| if *html && name == "a" { n.attr("name") } else { None });
+                    // first matching attribute in attribute order
+                    let frag = if let DNode::El { attrs, .. } = n {
+                        attrs.iter().find(|(k, _)| k == "id" || (*html && name == "a" && k == "name")).map(|(_, v)| v.as_str()).or(frag)
+                    } else {
+                        frag
+                    };
+                    if let Some(f) = frag {
+                        if vis_count(n) > 0 {
+                            expect.push((f.to_string(), *before));
+                        }
+                    }
+                    if *html && name == "img" {
+                        *before += vis_count(n);
+                        return;
+                    }
+                    for k in kids {
+                        go(k, before, expect);
+                    }
+                }
+                _ => {}
+            }
+        }
+        for n in &dom {
+            go(n, &mut before, &mut expect);
+        }
+        // observed markers with the number of non-space chars before them
+        let mut got: Vec<(String, usize)> = Vec::new();
+        let mut count = 0usize;
+        let mut widthful_marker = false;
+        for l in lines {
+            for e in l {
+                match e {
+                    Elem::Frag(n) => got.push((n.clone(), count)),
+                    Elem::Str(s, _) => count += s.chars().filter(|ch| !ch.is_whitespace() && !is_box_char(*ch) && *ch != '/').count(),
+                }
+            }
+            let _ = &mut widthful_marker;
+        }
+        let mut eg: Vec<String> = expect.iter().map(|x| x.0.clone()).collect();
+        let mut gg: Vec<String> = got.iter().map(|x| x.0.clone()).collect();
+        // markers of elements without visible content may or may not appear: compare on the expected set
+        let expset: HashSet<String> = eg.iter().cloned().collect();
+        gg.retain(|x| expset.contains(x));
+        eg.sort();
+        gg.sort();
+        if eg != gg {
+            // known: an id on table/thead/tbody/tr is attached to the first cell of the first
+            // row; when that cell renders nothing the marker is lost
+            let missing: Vec<&String> = eg.iter().filter(|x| !gg.contains(x)).collect();
+            let extra = gg.iter().any(|x| !eg.contains(x)) || gg.len() + missing.len() != eg.len();
+            let mut all_known = !extra && !missing.is_empty();
+            for m in &missing {
+                let mut ok = false;
+                walk(&dom, &mut |n, _| {
+                    if n.attr("id") == Some(m.as_str()) && (n.is("table") || n.is("tbody") || n.is("thead") || n.is("tr")) {
+                        // first cell in document order below n
+                        let mut first: Option<&DNode> = None;
+                        walk(n.kids(), &mut |x, _| {
+                            if first.is_none() && (x.is("td") || x.is("th")) {
+                                first = Some(x);
+                            }
+                        });
+                        let first = if n.is("tr") { n.kids().iter().find(|x| x.is("td") || x.is("th")) } else { first };
+                        if first.map(|f| vis_count(f) == 0).unwrap_or(true) {
+                            ok = true;
+                        }
+                    }
+                });
+                if !ok {
+                    all_known = false;
+                }
+            }
+            v.push(viol(i, "fragment markers are not exactly the ids with visible content", format!("expected {:?} got {:?}", eg, gg), if all_known { Some("row_marker_in_empty_first_cell") } else { None }));
+            continue;
+        }
+        // placement (trivial decorator, table-free: the non-space stream is V(d))
+        if c.spec.cfg.deco == 3 && c.slice == "flow" && !has_element(&dom, &["s", "del", "sup", "table"]) {
+            let gm: HashMap<String, usize> = got.iter().filter(|x| expset.contains(&x.0)).map(|x| (x.0.clone(), x.1)).collect();
+            for (name, pos) in &expect {
+                if let Some(p) = gm.get(name) {
+                    if p != pos {
+                        v.push(viol(i, "fragment marker is not at its element's first visible character", format!("{} expected after {} chars, found after {}", name, pos, p), None));
+                        break;
+                    }
+                }
+            }
+        }
+    }
+    v
+}
+fn nontrivial_c14(_c: &Case, r: &RunResult) -> bool {
+    match &r.outcome {
+        Outcome::Lines(ls) => ls.iter().flatten().filter(|e| matches!(e, Elem::Frag(_))).count() >= 1 && ls.len() >= 2,
+        _ => false,
+    }
+}
+
+// ======================================================================
+// C09 rich annotations
+// ======================================================================
+fn gen_c09(tier: &str, rng: &mut Rng) -> Vec<Case> {
+    let n = if tier == "thorough" { 80000 } else { 4000 };
+    let mut cases = Vec::new();
+    for _ in 0..n {
+        let tables = rng.chance(1, 3);
+        let css = rng.chance(1, 3);
+        let o = GenOpts { tables: if tables { 1 } else { 0 }, nested_tables: false, links: true, ids: false, pre: true, dl: true, imgs: true, strike: true, sup: false, colours: css, combining: false, wide: false, ..Default::default() };
+        let (html, _) = gen_doc(rng, o);
+        let mut cfg = Cfg { deco: 2, ..Default::default() };
+        cfg.doc_css = css;
+        let w = if rng.chance(1, 4) { rng.range(1, 12) } else { rng.range(10, 100) };
+        let id = cases.len();
+        cases.push(mk_case(id, 1, cfg, w, html.into_bytes(), Some(1), g(""), if tables { "tables" } else { "flow" }));
+    }
+    cases
+}
+fn parse_inline_colour(style: &str) -> Option<(bool, (u8, u8, u8))> {
+    // generator styles: "color:X;" or "background-color:X;"
+    let (bg, val) = if let Some(v) = style.strip_prefix("background-color:") { (true, v) } else if let Some(v) = style.strip_prefix("color:") { (false, v) } else { return None };
+    let val = val.trim_end_matches(';');
+    let c = match val {
+        "red" => (255, 0, 0),
+        "#00f" => (0, 0, 255),
+        "rgb(1,2,3)" => (1, 2, 3),
+        "green" => (0, 128, 0),
+        _ => return None,
+    };
+    Some((bg, c))
+}
+fn check_c09(cases: &[Case], results: &[Option<RunResult>]) -> Vec<Violation> {
+    let mut v = Vec::new();
+    for (i, c) in cases.iter().enumerate() {
+        let r = match &results[i] {
+            Some(r) => r,
+            None => continue,
+        };
+        let lines = match &r.outcome {
+            Outcome::Lines(l) => l,
+            _ => continue,
+        };
+        if !r.regular {
+            continue;
+        }
+        let dom = dom_of(r);
+        // expected annotation vector per unique token
+        let mut expect: HashMap<String, Vec<Ann>> = HashMap::new();
+        let mut dup: HashSet<String> = HashSet::new();
+        let mut table_styled = false;
+        walk(&dom, &mut |n, anc| {
+            let mut anns: Vec<Ann> = Vec::new();
+            let mut pre = false;
+            let mut chain: Vec<&DNode> = anc.to_vec();
+            if matches!(n, DNode::El { .. }) {
+                chain.push(n);
+            }
+            for a in &chain {
+                if let DNode::El { html: true, name, .. } = a {
+                    if c.spec.cfg.doc_css {
+                        if let Some(st) = a.attr("style") {
+                            if let Some((bg, (r_, g_, b_))) = parse_inline_colour(st) {
+                                if name == "table" {
+                                    table_styled = true;
+                                }
+                                anns.push(if bg { Ann::Bg(r_, g_, b_) } else { Ann::Colour(r_, g_, b_) });
+                            }
+                        }
+                    }
+                    match name.as_str() {
+                        "em" | "i" | "ins" | "dt" => anns.push(Ann::Em),
+                        "strong" => anns.push(Ann::Strong),
+                        "s" | "del" => anns.push(Ann::Strike),
+                        "code" => anns.push(Ann::Code),
+                        "a" => {
+                            if let Some(h) = a.attr("href") {
+                                anns.push(Ann::Link(h.to_string()))
+                            }
+                        }
+                        "pre" => pre = true,
+                        _ => {}
+                    }
+                }
+            }
+            let toks: Vec<String> = match n {
+                DNode::Text(t) => t.split_whitespace().map(|s| s.to_string()).collect(),
+                DNode::El { html: true, name, .. } if name == "img" => {
+                    let alt = n.attr("alt").unwrap_or("");
+                    let src = n.attr("src").unwrap_or("");
+                    if !alt.is_empty() && !src.is_empty() {
+                        anns.push(Ann::Image(src.to_string()));
+                        alt.split_whitespace().map(|s| s.to_string()).collect()
+                    } else {
+                        vec![]
+                    }
+                }
+                _ => vec![],
+            };
+            if pre {
+                anns.push(Ann::Pre(false));
+            }
+            for t in toks {
+                if expect.insert(t.clone(), anns.clone()).is_some() {
+                    dup.insert(t);
+                }
+            }
+        });
+        if table_styled {
+            continue; // a styled <table> never unwinds its style (recorded separately)
+        }
+        'outer: for l in lines {
+            for e in l {
+                if let Elem::Str(s, tag) = e {
+                    for tok in s.split_whitespace() {
+                        let tok: String = tok.chars().filter(|ch| *ch != '\u{336}').collect();
+                        if dup.contains(&tok) {
+                            continue;
+                        }
+                        if let Some(exp) = expect.get(&tok) {
+                            let mut exp2 = exp.clone();
+                            let mut got = tag.clone();
+                            // a continuation piece of a preformatted line carries Pre(true)
+                            if let (Some(Ann::Pre(_)), Some(Ann::Pre(_))) = (exp2.last(), got.last()) {
+                                exp2.pop();
+                                got.pop();
+                            }
+                            if exp2 != got {
+                                v.push(viol(i, "annotations differ from the enclosing elements", format!("token {:?}: expected {:?} got {:?}", tok, exp, tag), None));
+                                break 'outer;
+                            }
+                        }
+                    }
+                }
+            }
+        }
+        // line text equals the string route: checked by C10 (routes) on the same generator family
+    }
+    v
+}
+fn nontrivial_c09(_c: &Case, r: &RunResult) -> bool {
+    match &r.outcome {
+        Outcome::Lines(ls) => ls.iter().flatten().any(|e| matches!(e, Elem::Str(_, t) if t.len() >= 2)),
+        _ => false,
+    }
+}
+
+// ======================================================================
+// C12 preformatted text
+// ======================================================================
+fn expand_tabs(line: &str) -> String {
+    let mut o = String::new();
+    let mut col = 0usize;
+    for c in line.chars() {
+        if c == '\t' {
+            let mut one = false;
+            while col % 8 != 0 || !one {
+                o.push(' ');
+                col += 1;
+                one = true;
+            }
+        } else {
+            o.push(c);
+            col += cw(c);
+        }
+    }
+    o
+}
+fn gen_c12(tier: &str, rng: &mut Rng) -> Vec<Case> {
+    let n = if tier == "thorough" { 100000 } else { 5000 };
+    let mut cases = Vec::new();
+    for _ in 0..n {
+        let mut gnr = Gen::new(rng, GenOpts { combining: false, ..Default::default() });
+        let src = gnr.pre_text();
+        let wrapk = gnr.rng.below(6);
+        let deco = *gnr.rng.pick(&[1u8, 2]);
+        let (html, prefix): (String, usize) = match wrapk {
+            0 => (format!("<ul><li><pre>{}</pre></li></ul>", src), 2),
+            1 => (format!("<blockquote><pre>{}</pre></blockquote>", src), 2),
+            _ => (format!("<pre>{}</pre>", src), 0),
+        };
+        let w = rng.range(1, 60);
+        let cfg = Cfg { deco, ..Default::default() };
+        let route = if deco == 2 { 1 } else { 0 };
+        let id = cases.len();
+        cases.push(mk_case(id, route, cfg, w, html.into_bytes(), Some(route as u64), Meta::G { role: "pre", strs: vec![src], nums: vec![prefix as i64] }, if prefix > 0 { "nested" } else { "top" }));
+    }
+    cases
+}
+fn check_c12(cases: &[Case], results: &[Option<RunResult>]) -> Vec<Violation> {
+    let mut v = Vec::new();
+    for (i, c) in cases.iter().enumerate() {
+        let r = match &results[i] {
+            Some(r) => r,
+            None => continue,
+        };
+        if c.meta.role() != "pre" {
+            continue;
+        }
+        let src = &c.meta.strs()[0];
+        let prefix = c.meta.nums()[0] as usize;
+        let got = match out_lines(&r.outcome) {
+            Some(l) => l,
+            None => continue,
+        };
+        if c.spec.width <= prefix {
+            continue;
+        }
+        let avail = c.spec.width - prefix;
+        // strip prefix columns
+        let body: Vec<String> = got.iter().map(|l| l.chars().skip(prefix).collect::<String>()).collect();
+        let src_lines: Vec<String> = src.split('\n').map(expand_tabs).collect();
+        let maxw = src_lines.iter().map(|l| str_width(l)).max().unwrap_or(0);
+        if maxw <= avail {
+            let exp: Vec<String> = src_lines.iter().map(|l| l.trim_end_matches(' ').to_string()).collect();
+            let gotr: Vec<String> = body.iter().map(|l| l.trim_end_matches(' ').to_string()).collect();
+            // leading/trailing blank lines of the block are not pinned by the property text
+            let trim = |v: &Vec<String>| {
+                let mut a = 0;
+                let mut b = v.len();
+                while a < b && v[a].is_empty() {
+                    a += 1;
+                }
+                while b > a && v[b - 1].is_empty() {
+                    b -= 1;
+                }
+                v[a..b].to_vec()
+            };
+            if trim(&exp) != trim(&gotr) {
+                v.push(viol(i, "fitting preformatted block is not reproduced line for line", format!("expected {:?} got {:?}", exp, gotr), None));
+            }
+        } else {
+            let a = nonspace(&src.replace('\t', " "));
+            let b = nonspace(&body.join("\n"));
+            if a != b {
+                v.push(viol(i, "cut preformatted block lost, duplicated or reordered characters", String::new(), None));
+            } else if body.iter().any(|l| str_width(l) > avail) {
+                v.push(viol(i, "piece of a cut preformatted line wider than the available width", String::new(), None));
+            }
+        }
+        // tags: first piece Pre(false), continuation pieces Pre(true)
+        if let Outcome::Lines(ls) = &r.outcome {
+            if prefix == 0 {
+                // a source line that fits entirely must be tagged Pre(false) throughout
+                let mut li = 0usize;
+                for sl in &src_lines {
+                    if li >= ls.len() {
+                        break;
+                    }
+                    if str_width(sl) <= avail {
+                        for e in &ls[li] {
+                            if let Elem::Str(s, t) = e {
+                                if !s.trim().is_empty() && t.last() != Some(&Ann::Pre(false)) {
+                                    v.push(viol(i, "unwrapped preformatted line not tagged Preformat(false)", format!("{:?}", e), None));
+                                }
+                            }
+                        }
+                        li += 1;
+                    } else {
+                        break; // after the first cut line the line correspondence is lost
+                    }
+                }
+            }
+        }
+    }
+    v
+}
+fn nontrivial_c12(_c: &Case, r: &RunResult) -> bool {
+    out_lines(&r.outcome).map(|l| l.len() >= 2).unwrap_or(false)
+}
+
+// ======================================================================
+// C03 text preserved
+// ======================================================================
+fn gen_c03(tier: &str, rng: &mut Rng) -> Vec<Case> {
+    let n = if tier == "thorough" { 100000 } else { 5000 };
+    let mut cases = Vec::new();
+    for _ in 0..n {
+        let tables = rng.chance(1, 3);
+        let o = GenOpts { tables: if tables { 1 } else { 0 }, nested_tables: tables, links: true, ids: true, pre: true, dl: true, imgs: true, strike: true, sup: true, br: true, ..Default::default() };
+        let (html, _) = gen_doc(rng, o);
+        let mut bytes = html.into_bytes();
+        if rng.chance(1, 10) {
+            bytes = mutate(rng, &bytes);
+        }
+        let mut cfg = Cfg { deco: *rng.pick(&[3u8, 3, 0, 1, 2]), ..Default::default() };
+        if rng.chance(1, 5) {
+            cfg.raw = 1;
+        }
+        if rng.chance(1, 6) {
+            cfg.pad = true;
+        }
+        if rng.chance(1, 6) {
+            cfg.max_wrap = Some(rng.range(1, 30));
+        }
+        cfg.strike = 2;
+        let w = if rng.chance(1, 4) { rng.range(1, 10) } else { rng.range(1, 200) };
+        let id = cases.len();
+        // the labelled model route (2) gives provenance for the decorated configurations
+        cases.push(mk_case(id, 1, cfg, w, bytes, Some(2), g(""), if tables { "tables" } else { "flow" }));
+    }
+    cases
+}
+fn sup_back(c: char) -> char {
+    match c {
+        '⁰' => '0',
+        '¹' => '1',
+        '²' => '2',
+        '³' => '3',
+        '⁴' => '4',
+        '⁵' => '5',
+        '⁶' => '6',
+        '⁷' => '7',
+        '⁸' => '8',
+        '⁹' => '9',
+        c => c,
+    }
+}
+fn c03_known(dom: &[DNode]) -> Option<&'static str> {
+    let mut k = None;
+    walk(dom, &mut |n, anc| {
+        if n.is("tfoot") || n.is("caption") {
+            k = Some("table_tfoot_caption_dropped");
+        }
+        if let DNode::Text(t) = n {
+            if !t.trim().is_empty() {
+                if let Some(p) = anc.last() {
+                    if p.is("ol") || p.is("dl") || p.is("table") || p.is("tr") || p.is("tbody") || p.is("thead") {
+                        k = Some("loose_text_in_list_or_table");
+                    }
+                }
+            }
+        }
+        if let Some(p) = anc.last() {
+            if (p.is("ol") || p.is("dl")) && matches!(n, DNode::El { .. }) && !(n.is("li") || n.is("dt") || n.is("dd")) && vis_count(n) > 0 {
+                k = Some("loose_text_in_list_or_table");
+            }
+            if (p.is("tr") && !(n.is("td") || n.is("th"))) || ((p.is("tbody") || p.is("thead") || p.is("table")) && !(n.is("tr") || n.is("tbody") || n.is("thead"))) {
+                if vis_count(n) > 0 {
+                    k = Some("loose_text_in_list_or_table");
+                }
+            }
+        }
+        if n.is("img") {
+            let alt = n.attr("alt").unwrap_or("");
+            let src = n.attr("src").unwrap_or("");
+            if !alt.is_empty() && src.is_empty() {
+                k = Some("img_alt_without_src");
+            }
+        }
+    });
+    k
+}
+fn check_c03(cases: &[Case], results: &[Option<RunResult>]) -> Vec<Violation> {
+    let mut v = Vec::new();
+    for (i, c) in cases.iter().enumerate() {
+        let r = match &results[i] {
+            Some(r) => r,
+            None => continue,
+        };
+        if c.spec.cfg.deco != 3 || !r.regular {
+            continue; // decorated configurations: provenance via the labelled model (correspondence)
+        }
+        let text = match r.outcome.text() {
+            Some(t) => t,
+            None => continue,
+        };
+        let dom = dom_of(r);
+        let vis: Vec<char> = visible_chars(&dom);
+        let has_table = has_element(&dom, &["table"]);
+        let borders = has_table && c.spec.cfg.raw == 0 && !c.spec.cfg.no_borders;
+        let visset: HashSet<char> = vis.iter().copied().collect();
+        let out: Vec<char> = text
+            .chars()
+            .filter(|ch| !ch.is_whitespace())
+            .filter(|ch| !(borders && (is_box_char(*ch) || *ch == '/') && !visset.contains(ch)))
+            .map(sup_back)
+            .collect();
+        // <sup> non-digit content is wrapped in ^{ }
+        let has_sup = has_element(&dom, &["sup"]);
+        let out: Vec<char> = if has_sup {
+            let s: String = out.iter().collect();
+            s.replace("^{", "").replace('}', "").chars().collect()
+        } else {
+            out
+        };
+        let visn: Vec<char> = if has_sup { vis.iter().filter(|ch| **ch != '}').copied().collect() } else { vis.clone() };
+        let ordered = !has_table || c.spec.cfg.raw == 1;
+        let ok = if ordered {
+            out == visn
+        } else {
+            let mut a = out.clone();
+            let mut b = visn.clone();
+            a.sort();
+            b.sort();
+            a == b
+        };
+        if !ok {
+            v.push(viol(i, "document text is not preserved", format!("visible {:?} output {:?}", visn.iter().take(60).collect::<String>(), out.iter().take(60).collect::<String>()), c03_known(&dom)));
+        }
+    }
+    v
+}
+fn nontrivial_c03(_c: &Case, r: &RunResult) -> bool {
+    out_lines(&r.outcome).map(|l| l.len() >= 2).unwrap_or(false)
+}
+
+pub fn prop_def3(id: &str) -> Option<PropDef> {
+    match id {
+        "C03" => Some(PropDef { id: "C03", generate: gen_c03, check: check_c03, nontrivial: nontrivial_c03, project: ident, deadline_ms: 20000 }),
+        "C08" => Some(PropDef { id: "C08", generate: gen_c08, check: check_c08, nontrivial: nontrivial_c08, project: ident, deadline_ms: 20000 }),
+        "C09" => Some(PropDef { id: "C09", generate: gen_c09, check: check_c09, nontrivial: nontrivial_c09, project: ident, deadline_ms: 20000 }),
+        "C12" => Some(PropDef { id: "C12", generate: gen_c12, check: check_c12, nontrivial: nontrivial_c12, project: ident, deadline_ms: 20000 }),
+        "C13" => Some(PropDef { id: "C13", generate: gen_c13, check: check_c13, nontrivial: nontrivial_c13, project: ident, deadline_ms: 20000 }),
+        "C14" => Some(PropDef { id: "C14", generate: gen_c14, check: check_c14, nontrivial: nontrivial_c14, project: ident, deadline_ms: 20000 }),
+        "C15" => Some(PropDef { id: "C15", generate: gen_c15, check: check_c15, nontrivial: nontrivial_c15, project: ident, deadline_ms: 20000 }),
+        other => crate::props4::prop_def4(other),
+    }
 }
